@@ -108,6 +108,18 @@ S2NegotiateDialects(p) ==
          ELSE LET d == S2DialectSeq(p, 4 + 100, n) IN
               IF Cardinality({ d[i] : i \in 1..n }) = n THEN d ELSE << >>       \* duplicates: unspecified
 
+(* a negotiate request that offers nothing: DialectCount = 0 (whatever follows) *)
+S2NegotiateOffersNothing(p) ==
+    /\ S2HdrOK(p) /\ Len(p) >= 4 + 64 + 36 /\ S2Cmd(p) = 0 /\ S2Flags0(p) % 2 = 0
+    /\ L16(p, 4 + 64) = 36 /\ L16(p, 4 + 66) = 0
+
+(* the dialects a negotiate request declares, as far as the message holds them (no de-duplication) *)
+S2DeclaredDialects(p) ==
+    IF ~(S2HdrOK(p) /\ Len(p) >= 4 + 64 + 36 /\ S2Cmd(p) = 0) THEN {}
+    ELSE LET n == L16(p, 4 + 66)
+             m == IF 4 + 100 + 2 * n <= Len(p) THEN n ELSE (Len(p) - 4 - 100) \div 2
+         IN { L16(p, 4 + 100 + 2 * (k - 1)) : k \in 1..(IF m > 64 THEN 64 ELSE m) }
+
 KNOWN_SMB2_DIALECTS == { 514, 528, 767, 768, 770, 784, 785 }    \* 0x0202 0x0210 0x02ff 0x0300 0x0302 0x0310 0x0311
 
 S2SessionSetupClean(p) ==
@@ -134,6 +146,9 @@ S2ReplyFails(p, r, offered) ==
 S2ReplyShellFails(p, r) ==
     IF ~(IsSmb2(r) /\ Len(r) >= 4 + 64 + 8 /\ S2HdrOK(p)) THEN { "smb2-header" }
     ELSE (IF NbtLenIs(r, Len(r) - 4) THEN {} ELSE { "netbios-length" })
+         \cup (IF S2Cmd(p) = 0 /\ S2Cmd(r) = 0 /\ Len(r) >= 4 + 64 + 6 /\ Len(p) >= 4 + 64 + 36
+               THEN (IF L16(r, 4 + 64 + 4) \in S2DeclaredDialects(p) THEN {} ELSE { "smb2-dialect-offered" })
+               ELSE {})
          \cup (IF S2Flags0(r) % 2 = 1 THEN {} ELSE { "smb2-reply-flag" })
          \cup (IF S2Cmd(r) = S2Cmd(p) THEN {} ELSE { "smb2-command-echo" })
          \cup (IF S2Corr(r) = S2Corr(p) THEN {} ELSE { "smb2-message-async-session-id-echo" })
